@@ -278,47 +278,61 @@ theorem mem_allHits (g : Grp) (nm : Nat) (keys : List Nat) (q : List Val) (i : I
   unfold allHits
   simp [List.mem_flatMap]
 
+theorem found_flatten (g : Grp) (keys : List Nat) (dflt : Val) (q : List Val) (hs : NoSentinel g dflt) :
+    ∀ l : List Nat,
+      ((l.map (perModel g keys dflt q)).filter (fun x => decide (x ≠ [dflt]))).flatten
+        = (l.flatMap (fun m => hits (rowsOf g m) keys q)).map some
+  | [] => rfl
+  | m :: l => by
+    have ih := found_flatten g keys dflt q hs l
+    rw [List.map_cons, List.flatMap_cons, List.map_append]
+    by_cases he : hits (rowsOf g m) keys q = []
+    · have hp : perModel g keys dflt q m = [dflt] := (perModel_default_iff g keys dflt q m hs).mpr he
+      have hd : decide (perModel g keys dflt q m ≠ [dflt]) = false := by simp [hp]
+      simp only [List.filter_cons, hd, Bool.false_eq_true, ↓reduceIte, ih, he, List.map_nil, List.nil_append]
+    · have hp : perModel g keys dflt q m ≠ [dflt] := fun e => he ((perModel_default_iff g keys dflt q m hs).mp e)
+      have hp2 := perModel_hits g keys dflt q m he
+      have hd : decide (perModel g keys dflt q m ≠ [dflt]) = true := by simp [hp]
+      simp only [List.filter_cons, hd, ↓reduceIte]
+      rw [List.flatten_cons, ih, hp2]
+
 /-- what `GroupBase.find_idx` computes for one search tuple (when `default` is not a device idx):
-`missing` iff no model matches, else the matches of the FIRST model that has any -/
+`missing` iff no model matches, else EVERY match of every model, models in group order -/
 theorem groupFindOne_spec (g : Grp) (nm : Nat) (keys : List Nat) (dflt : Val) (q : List Val)
     (hs : NoSentinel g dflt) :
     (allHits g nm keys q = [] ∧ groupFindOne g nm keys dflt q = ([dflt], true)) ∨
-    (∃ m, m < nm ∧ hits (rowsOf g m) keys q ≠ [] ∧ (∀ m', m' < m → hits (rowsOf g m') keys q = []) ∧
-      groupFindOne g nm keys dflt q = ((hits (rowsOf g m) keys q).map some, false)) := by
+    (allHits g nm keys q ≠ [] ∧ groupFindOne g nm keys dflt q = ((allHits g nm keys q).map some, false)) := by
+  have hf := found_flatten g keys dflt q hs (List.range nm)
   unfold groupFindOne
   simp only
-  by_cases hall : ((List.range nm).map (perModel g keys dflt q)).all (fun l => decide (l = [dflt])) = true
+  by_cases hall : allHits g nm keys q = []
   · left
-    rw [if_pos hall]
-    refine ⟨?_, rfl⟩
-    rw [allHits_nil_iff]
-    intro m hm
-    rw [List.all_eq_true] at hall
-    have := hall (perModel g keys dflt q m) (List.mem_map.mpr ⟨m, List.mem_range.mpr hm, rfl⟩)
-    exact (perModel_default_iff g keys dflt q m hs).mp (by simpa using this)
+    refine ⟨hall, ?_⟩
+    have hemp : ((List.range nm).map (perModel g keys dflt q)).filter (fun l => decide (l ≠ [dflt])) = [] := by
+      rw [List.filter_eq_nil_iff]
+      intro x hx
+      obtain ⟨m, hm, rfl⟩ := List.mem_map.mp hx
+      have := (allHits_nil_iff g nm keys q).mp hall m (List.mem_range.mp hm)
+      simp [(perModel_default_iff g keys dflt q m hs).mpr this]
+    rw [hemp]
+    rfl
   · right
-    rw [if_neg hall]
-    have ff := find_first (perModel g keys dflt q) (fun l => decide (l ≠ [dflt])) nm
-    cases hfd : ((List.range nm).map (perModel g keys dflt q)).find? (fun l => decide (l ≠ [dflt])) with
-    | none =>
-      exfalso
+    refine ⟨hall, ?_⟩
+    have hne : ((List.range nm).map (perModel g keys dflt q)).filter (fun l => decide (l ≠ [dflt])) ≠ [] := by
+      intro he
+      rw [he] at hf
+      simp only [List.flatten_nil] at hf
       apply hall
-      rw [List.all_eq_true]
-      intro l hl
-      obtain ⟨m, hm, rfl⟩ := List.mem_map.mp hl
-      have := ff.2 hfd m (List.mem_range.mp hm)
-      simpa using this
-    | some x =>
-      obtain ⟨m, hm, hx, hp, hfirst⟩ := ff.1 x hfd
-      have hne : hits (rowsOf g m) keys q ≠ [] := by
-        intro he
-        have := (perModel_default_iff g keys dflt q m hs).mpr he
-        simp [this] at hp
-      refine ⟨m, hm, hne, ?_, ?_⟩
-      · intro m' hm'
-        have := hfirst m' hm'
-        exact (perModel_default_iff g keys dflt q m' hs).mp (by simpa using this)
-      · simp [hx, perModel_hits g keys dflt q m hne]
+      unfold allHits
+      exact List.map_eq_nil_iff.mp hf.symm
+    have : (((List.range nm).map (perModel g keys dflt q)).filter (fun l => decide (l ≠ [dflt]))).isEmpty = false := by
+      cases hh : ((List.range nm).map (perModel g keys dflt q)).filter (fun l => decide (l ≠ [dflt])) with
+      | nil => exact absurd hh hne
+      | cons a t => rfl
+    rw [this]
+    simp only [Bool.false_eq_true, if_false]
+    rw [hf]
+    rfl
 
 /-! ## back references -/
 
@@ -487,15 +501,16 @@ theorem search_some (c : FCfg) (g : Grp) (key : Nat) (v : Val) (j : Idx) (h : se
     exact ⟨d, this.1, h1, h2, by simp [inScope, hm, this.2]⟩
   | false =>
     rw [search_group c g key v hm] at h
-    rcases groupFindOne_spec g c.nm [key] none [v] (noSentinel_none g) with ⟨_, h2⟩ | ⟨m, hm', _, _, h2⟩
+    rcases groupFindOne_spec g c.nm [key] none [v] (noSentinel_none g) with ⟨_, h2⟩ | ⟨_, h2⟩
     · rw [h2] at h; simp at h
     · rw [h2] at h
-      cases hh : hits (rowsOf g m) [key] [v] with
+      cases hh : allHits g c.nm [key] [v] with
       | nil => rw [hh] at h; simp at h
       | cons a t =>
         rw [hh] at h; simp at h; subst h
-        have hj : a ∈ hits (rowsOf g m) [key] [v] := by rw [hh]; simp
-        obtain ⟨d, hd, h1, h2⟩ := (hits_single _ _ _ _).mp hj
+        have hj : a ∈ allHits g c.nm [key] [v] := by rw [hh]; simp
+        obtain ⟨m, hm', hjm⟩ := (mem_allHits g c.nm [key] [v] a).mp hj
+        obtain ⟨d, hd, h1, h2⟩ := (hits_single _ _ _ _).mp hjm
         have := mem_rowsOf.mp hd
         exact ⟨d, this.1, h1, h2, by simp [inScope, hm, this.2, hm']⟩
 
@@ -514,11 +529,11 @@ theorem search_none (c : FCfg) (g : Grp) (key : Nat) (v : Val) (h : search c g k
     have hlt : d.mdl < c.nm := by simpa [inScope, hm] using hsc
     have hin : d.idx ∈ hits (rowsOf g d.mdl) [key] [v] :=
       (hits_single _ _ _ _).mpr ⟨d, mem_rowsOf.mpr ⟨hd, rfl⟩, rfl, hv⟩
-    rcases groupFindOne_spec g c.nm [key] none [v] (noSentinel_none g) with ⟨h1, _⟩ | ⟨m, _, hne, _, h2⟩
+    rcases groupFindOne_spec g c.nm [key] none [v] (noSentinel_none g) with ⟨h1, _⟩ | ⟨hne, h2⟩
     · have := (allHits_nil_iff g c.nm [key] [v]).mp h1 d.mdl hlt
       rw [this] at hin; cases hin
     · rw [h2] at h
-      cases hh : hits (rowsOf g m) [key] [v] with
+      cases hh : allHits g c.nm [key] [v] with
       | nil => exact hne hh
       | cons a t => rw [hh] at h; simp at h
 
